@@ -24,6 +24,7 @@ type Lay struct {
 	K     string // seq const le be raw rev varint zero hash loop sel unk phiref
 	S     string // term / hex bytes / reason
 	W     int
+	Sh    int // le/be of width 1 only: the byte is bits Sh..Sh+7 of the value S
 	Items []*Lay
 	Cases []selCase // for sel
 }
@@ -38,6 +39,51 @@ type condLit struct {
 	Truth bool
 }
 
+// mergeByteRuns: byte(v), byte(v>>8), byte(v>>16), ... written one after the other are the
+// little-endian encoding of v (the reverse order the big-endian one).
+func mergeByteRuns(items []*Lay) []*Lay {
+	isByte := func(l *Lay) bool { return l.K == "le" && l.W == 1 }
+	var out []*Lay
+	for i := 0; i < len(items); {
+		it := items[i]
+		if !isByte(it) {
+			out = append(out, it)
+			i++
+			continue
+		}
+		j := i + 1
+		for j < len(items) && isByte(items[j]) && items[j].S == it.S {
+			j++
+		}
+		n := j - i
+		asc, desc := true, true
+		for k := 0; k < n; k++ {
+			if items[i+k].Sh != 8*k {
+				asc = false
+			}
+			if items[i+k].Sh != 8*(n-1-k) {
+				desc = false
+			}
+		}
+		switch {
+		case n > 1 && asc && (n == 2 || n == 4 || n == 8):
+			out = append(out, &Lay{K: "le", W: n, S: it.S})
+		case n > 1 && desc && (n == 2 || n == 4 || n == 8):
+			out = append(out, &Lay{K: "be", W: n, S: it.S})
+		default:
+			for k := i; k < j; k++ {
+				b := items[k]
+				if b.Sh != 0 {
+					b = &Lay{K: "le", W: 1, S: fmt.Sprintf("(%s >> %d)", b.S, b.Sh)}
+				}
+				out = append(out, b)
+			}
+		}
+		i = j
+	}
+	return out
+}
+
 func seqOf(items ...*Lay) *Lay {
 	var flat []*Lay
 	for _, it := range items {
@@ -50,6 +96,7 @@ func seqOf(items ...*Lay) *Lay {
 			flat = append(flat, it)
 		}
 	}
+	flat = mergeByteRuns(flat)
 	// merge adjacent constants
 	var out []*Lay
 	for _, it := range flat {
@@ -169,6 +216,7 @@ type WEval struct {
 	elemNames  map[ssa.Value]string   // loop element loads -> "coll[i]"
 	allocEpoch map[*ssa.Alloc]int     // reader paths: named locals are printed as name#epoch
 	pathPhi    map[*ssa.Phi]ssa.Value // evaluation along one enumerated path: the incoming value chosen at each merge
+	argLay     map[ssa.Value]*Lay     // byte-slice parameters of an evaluated callee: the caller's layout of the argument
 	splitPhi   *ssa.Phi               // set when a merged value had to be printed inside a term (see evalFuncResult)
 	splits     int
 }
@@ -379,6 +427,9 @@ func (w *WEval) eval1(v ssa.Value) *Lay {
 		if w.nilArg[x] {
 			return seqOf()
 		}
+		if l, ok := w.argLay[x]; ok {
+			return l
+		}
 		return &Lay{K: "raw", S: w.term(x)}
 	case *ssa.ChangeType:
 		return w.eval(x.X)
@@ -439,6 +490,20 @@ func (w *WEval) byteOf(v ssa.Value) *Lay {
 	}
 	if k, ok := constInt(v); ok {
 		return &Lay{K: "const", S: fmt.Sprintf("%02x", k.Int64()&0xff)}
+	}
+	// byte(x >> k): bits k..k+7 of x
+	if bo, ok := v.(*ssa.BinOp); ok && bo.Op == token.SHR {
+		if k, isK := constInt(bo.Y); isK && k.Sign() >= 0 && k.Int64()%8 == 0 && k.Int64() < 64 {
+			inner := bo.X
+			for {
+				if cv, ok := inner.(*ssa.Convert); ok && isIntType(cv.X.Type()) && convPreservesBits(cv) {
+					inner = cv.X
+					continue
+				}
+				break
+			}
+			return &Lay{K: "le", W: 1, S: w.term(inner), Sh: int(k.Int64())}
+		}
 	}
 	if ph, ok := v.(*ssa.Phi); ok && !isLoopHeader(ph.Block()) && !w.inPhi[ph] {
 		// a byte chosen on the way here: one alternative per incoming value
@@ -942,6 +1007,13 @@ func (w *WEval) evalCalleeResult(sc *ssa.Function, args []ssa.Value, ri int) *La
 			break
 		}
 		sub.args[p] = w.term(args[i])
+		if isByteSlice(p.Type()) && w.depth < 6 {
+			// the callee appends to / copies from what the caller built so far
+			if sub.argLay == nil {
+				sub.argLay = map[ssa.Value]*Lay{}
+			}
+			sub.argLay[p] = w.eval(args[i])
+		}
 		switch a := args[i].(type) {
 		case *ssa.Const:
 			if a.Value == nil {
